@@ -165,6 +165,8 @@ impl<T: Send> MpscShared<T> {
       if next.is_null() {
         return None;
       }
+      #[cfg(all(loom, excsn_fibre_verif))]
+      crate::internal::verif_shadow::write((*next).val.get() as usize); // verification seam H10
       let value = (*(*next).val.get()).take().unwrap();
       *self.tail.get() = next;
       retire_node(tail);
